@@ -939,6 +939,34 @@ def check_recursion(F, R):
         for (p_, bi, t) in lst:
             edges.setdefault(base(p_), set()).add(callee)
     ws = set(F.fns.keys())
+    # conversion edges through generic bodies: a trait-default (or generic) method that does `self.into()` / `self.try_into()` calls, for
+    # the Self type of each of its call sites, that type's `From` / `TryFrom` impl — `impl From<T> for String { fn from(t) { t.into_string() } }`
+    # with `fn into_string(self) -> String { self.into() }` in the trait is a cycle the uninstantiated graph does not show
+    conv_inner = {}
+    for callee_, lst_ in idx.items():
+        m_ = re.match(r"^core::convert::(Into::into|TryInto::try_into)$", callee_)
+        if not m_:
+            continue
+        for (p_, bi_, t_) in lst_:
+            ta_ = t_.get("targs") or []
+            if len(ta_) == 2 and ta_[0] == "Self":
+                conv_inner.setdefault(base(p_), []).append(("From" if m_.group(1).startswith("Into") else "TryFrom", ta_[1]))
+    n_conv = 0
+    for callee_, lst_ in idx.items():
+        if callee_ not in conv_inner:
+            continue
+        for (p_, bi_, t_) in lst_:
+            ta_ = t_.get("targs") or []
+            if not ta_ or ta_[0] in ("Self", "T"):
+                continue
+            for tr_, u_ in conv_inner[callee_]:
+                tgt_ = "<%s as core::convert::%s<%s>>::%s" % (u_, tr_, ta_[0], "from" if tr_ == "From" else "try_from")
+                if tgt_ in ws:
+                    edges.setdefault(callee_ + "[Self=" + ta_[0] + "]", set()).add(tgt_)
+                    edges.setdefault(base(p_), set()).add(callee_ + "[Self=" + ta_[0] + "]")
+                    ws.add(callee_ + "[Self=" + ta_[0] + "]")
+                    n_conv += 1
+    r4.site("generic conversion edges instantiated: %d" % n_conv)
 
     def self_reachable(f):
         seen, st = set(), [f]
@@ -1155,6 +1183,26 @@ def run(F, R, tier):
                 if err:
                     r1.fail((fn, what, "guard", arg), "%s: `%s` lost its guard: %s" % (short(fn), what, err), s.sp)
             r1.exception("%s | %s ×%d" % (fn, what, len(ss)), "checked", "guard `%s` verified on the HIR" % arg)
+    # a type deserialised *through* a dependency type (`#[serde(try_from = "X")]` / `from = "X"` with X the dependency's) reaches the
+    # dependency's parser from its derived Deserialize — a call that is in no function body of the workspace
+    dep_tys = sorted({m.group(1) for m in (re.match(r"^(.*)::parse$", x) for x in DEP_PANIC.pattern.strip("^$()").split("|")) if m})
+    n_ser = 0
+    for ty, a in sorted(F.ast.items()):
+        attrs = " ".join(a.get("attrs") or [])
+        m = re.search(r'serde\s*\(.*?\b(?:try_from|from)\s*=\s*"([^"]+)"', attrs)
+        if not m:
+            continue
+        n_ser += 1
+        for dt in dep_tys:
+            conv = [f for f in F.bodies_all if re.match(r"^<%s as core::convert::(Try)?From<%s>>::(try_)?from$" % (re.escape(ty), re.escape(dt)), f)]
+            named = m.group(1).split("::")[-1].split("<")[0]
+            # the attribute names the type by whatever name is in scope: it is the dependency's when it is the dependency's own last
+            # segment, or an alias — no conversion of this type comes from a type that is actually called so
+            direct = [f for f in F.bodies_all if re.match(r"^<%s as core::convert::(Try)?From<(.*::)?%s(<.*>)?>>::(try_)?from$" % (re.escape(ty), re.escape(named)), f)]
+            if conv and named not in ("String", "str") and (named == dt.split("::")[-1] or not direct):
+                r1.fail((ty, "serde-through", dt + "::parse"), "%s is deserialised through %s (serde %s): its Deserialize runs %s::parse on the string read, which panics for \"did:example:a%%41\"" % (
+                    short(ty), dt, m.group(0)[m.group(0).index("(") + 1:], dt))
+    r1.site("%d type(s) deserialised through another type examined for dependency parsers %s" % (n_ser, dep_tys))
     stale = [k for k in table if k not in used]
     for k in stale:
         r1.note("table entry without a site (construct removed or now auto-discharged): %s | %s" % k)
